@@ -1,13 +1,383 @@
 /-
-Driver ops of the "Lists" family. `run` returns `none` for op names it does not own.
+Driver ops of the "Lists" family (C13 / C14 / C17). `run` returns `none` for op names it does not own.
+
+Op lines (`T` is a name bound by a `ty` line to the *element* / key type unless said otherwise):
+  sort T <list>                 keys M <map>            (M bound to the map type)
+  min|max T <list> <default>    min2|max2 T <a> <b>
+  contains T <list> <item>      unique T <list>         set T <list>
+  unionl|intersectl T <this> <that>                      (lists)
+  unionm|intersectm T <this> <that>                      (map[T]struct{} values)
+  filter|takewhile|all|any T <list> b<bits>              (scripted predicate: k-th call answers bit k)
+  fmap F <list> <results>       (Fe / Fr bound to element / result type; k-th call returns results[k])
+  fmaps F <string> <results>    (F bound to the result type)
+  join T <list of lists>        joins string <list of strings>
+
+Answers have the form `A;B`: `A` is what the property specifies (compared with `spec=`), `B` is what
+only the model fixes (nil-ness of results, the input as seen after an in-place call, which of
+several Equal elements is returned). Values are printed with `printVal` after erasing addresses and
+spare capacity, map entries sorted by printed key, spaces replaced by `_`; `canonN` additionally
+maps `-0` to `+0`, which makes it a canonical form of the Equal classes.
 -/
 import GoderiveModel.U.Wire
+import GoderiveModel.U.Typing
+import GoderiveModel.S.Lists
+import GoderiveModel.Spec.Lists
+import GoderiveModel.Spec.StructEq
+import GoderiveModel.Spec.Order
 import Driver.State
 
 open Goderive
+open Goderive.Lists
 
 namespace OpsLists
 
-def run (_s : DState) (_name : String) (_args : List SExp) : Option String := none
+/-! ### canonical printing -/
+
+def sortStrings (xs : List String) : List String :=
+  (xs.toArray.qsort (fun a b => a < b)).toList
+
+def normFlt (nz : Bool) (w b : Nat) : Nat := if nz && fltMag w b == 0 then 0 else b
+
+/-- insert a `pair` into a spine sorted by printed key -/
+partial def insertByKey (e : Val) : Val → Val
+  | .scons h t =>
+    match e, h with
+    | .pair k _, .pair k' _ =>
+      if printVal k ≤ printVal k' then .scons e (.scons h t) else .scons h (insertByKey e t)
+    | _, _ => .scons e (.scons h t)
+  | s => .scons e s
+
+partial def sortByKey : Val → Val
+  | .scons e r => insertByKey e (sortByKey r)
+  | s => s
+
+/-- erase identity: addresses and spare capacity 0, map entries in printed-key order; `nz`: `-0 ↦ +0` -/
+partial def erase (nz : Bool) : Val → Val
+  | .flt w b => .flt w (normFlt nz w b)
+  | .cplx w a b => .cplx w (normFlt nz w a) (normFlt nz w b)
+  | .ptr _ v => .ptr 0 (erase nz v)
+  | .slice _ _ es => .slice 0 0 (erase nz es)
+  | .arr es => .arr (erase nz es)
+  | .struct es => .struct (erase nz es)
+  | .map _ es => .map 0 (sortByKey (erase nz es))
+  | .pair k v => .pair (erase nz k) (erase nz v)
+  | .scons h t => .scons (erase nz h) (erase nz t)
+  | v => v
+
+def canonWith (nz : Bool) (v : Val) : String :=
+  (printVal (erase nz v)).map (fun c => if c == ' ' then '_' else c)
+
+def canon (v : Val) : String := canonWith false v
+def canonN (v : Val) : String := canonWith true v
+
+def bracket (ss : List String) : String := "[" ++ ",".intercalate ss ++ "]"
+
+/-- elements only (nil and empty both `[]`) -/
+def showE (xs : List Val) : String := bracket (xs.map canon)
+/-- a slice with its nil-ness -/
+def showL (l : Sl) : String :=
+  match l with
+  | none => "nil"
+  | some xs => showE xs
+def nilness {α : Type} (l : Option α) : String := if l.isNone then "n" else "s"
+def showSortedE (pr : Val → String) (xs : List Val) : String := bracket (sortStrings (xs.map pr))
+
+/-- sort each maximal run of consecutive `eqv` elements by printed form (unstable sorts may order
+Compare-equal elements either way) -/
+def canonRuns (eqv : Val → Val → Bool) (xs : List Val) : List String :=
+  let rec go (run : List String) (last : Option Val) (rest : List Val) (fuel : Nat) : List String :=
+    match fuel, rest with
+    | 0, _ => sortStrings run
+    | _, [] => sortStrings run
+    | fuel + 1, x :: r =>
+      match last with
+      | some y => if eqv y x then go (canon x :: run) (some x) r fuel
+                  else sortStrings run ++ go [canon x] (some x) r fuel
+      | none => go [canon x] (some x) r fuel
+  go [] none xs (xs.length + 1)
+
+/-! ### argument decoding -/
+
+abbrev M := Except String
+
+def getTyNamed (s : DState) (n : String) : M Ty :=
+  match s.tys.lookup n with
+  | some t => pure t
+  | none =>
+    match parseTy (.atom n) with
+    | some t => pure t
+    | none => throw "bad-op"
+
+def getTy (s : DState) (e : SExp) : M Ty :=
+  match e with
+  | .atom a => getTyNamed s a
+  | _ => throw "bad-op"
+
+def getVal (env : Env) (T : Ty) (e : SExp) : M Val :=
+  match parseVal e with
+  | none => throw "bad-op"
+  | some v => if hasType env T v then pure v else throw "ill-typed"
+
+def getList (env : Env) (E : Ty) (e : SExp) : M Sl := do
+  let v ← getVal env (.slice E) e
+  match Sl.ofVal v with
+  | some l => pure l
+  | none => throw "ill-typed"
+
+def getListOfLists (env : Env) (E : Ty) (e : SExp) : M (Option (List Sl)) := do
+  let v ← getVal env (.slice (.slice E)) e
+  match v with
+  | .nilv => pure none
+  | .slice _ _ es =>
+    match es.toList.mapM Sl.ofVal with
+    | some ls => pure (some ls)
+    | none => throw "ill-typed"
+  | _ => throw "ill-typed"
+
+def getKeySet (env : Env) (K : Ty) (e : SExp) : M (Option (List Val)) := do
+  let v ← getVal env (.map K (.struct .fnil)) e
+  match mapKeySet v with
+  | some m => pure m
+  | none => throw "ill-typed"
+
+def getBits (e : SExp) : M (List Bool) :=
+  match e with
+  | .atom a =>
+    match a.toList with
+    | 'b' :: cs => if cs.all (fun c => c == '0' || c == '1') then pure (cs.map (· == '1')) else throw "bad-op"
+    | _ => throw "bad-op"
+  | _ => throw "bad-op"
+
+def checkHeap (args : List SExp) : M Unit :=
+  if heapConsistent ((args.filterMap parseVal).flatMap objs) then pure () else throw "ill-formed-heap"
+
+def strBytes : Val → List Nat
+  | .str bs => bs
+  | _ => []
+
+/-! ### executable specifications (independent of S/Lists) -/
+
+def padBits (bits : List Bool) (n : Nat) : List Bool := bits ++ List.replicate n false
+
+def specFilter (bits : List Bool) (xs : List Val) : List Val :=
+  ((xs.zip (padBits bits xs.length)).filter (·.2)).map (·.1)
+
+def specTakeWhile (bits : List Bool) (xs : List Val) : List Val :=
+  ((xs.zip (padBits bits xs.length)).takeWhile (·.2)).map (·.1)
+
+/-- the predicate is called on the elements in order up to and including the first one with answer `stop` -/
+def specLogUntil (stop : Bool) (bits : List Bool) (xs : List Val) : List Val :=
+  let zs := xs.zip (padBits bits xs.length)
+  let k := (zs.takeWhile (fun z => z.2 != stop)).length
+  xs.take (k + 1)
+
+def specSort (xs : List Val) : List String :=
+  canonRuns (fun a b => Spec.cmpVal a b == 0) (xs.mergeSort (fun a b => Spec.cmpVal a b ≤ 0))
+
+/-- an element that no other element precedes (`dir = 1`) / follows (`dir = -1`) -/
+def specExtreme (dir : Int) (xs : List Val) (dflt : Val) : Val :=
+  match xs.find? (fun m => xs.all (fun y => dir * Spec.cmpVal y m ≥ 0)) with
+  | some m => m
+  | none => dflt
+
+/-! ### the ops -/
+
+def names : List String :=
+  ["sort", "keys", "min", "max", "min2", "max2", "contains", "unique", "set", "unionl", "intersectl",
+   "unionm", "intersectm", "filter", "takewhile", "all", "any", "fmap", "fmaps", "join", "joins"]
+
+def ans (model spec : String) : String := s!"model={model} spec={spec}"
+
+def runM (s : DState) (name : String) (args : List SExp) : M String := do
+  let env := s.env
+  checkHeap args
+  match name, args with
+  | "sort", [t, l] =>
+    let E ← getTy s t
+    let xs ← getList env E l
+    match sortLess env E with
+    | none => pure (ans "unsupported" "unsupported")
+    | some less =>
+      let eqv := fun a b => !resTrue (less a b) && !resTrue (less b a)
+      let spec := bracket (specSort xs.elems)
+      let model := match Lists.sort insertionSort less xs with
+        | .panic => "panic"
+        | .ok out => bracket (canonRuns eqv out.elems) ++ ";" ++ nilness out ++ "," ++ bracket (canonRuns eqv out.elems)
+      pure (ans model spec)
+  | "keys", [t, m] =>
+    let T ← getTy s t
+    let v ← getVal env T m
+    let spec := match v with
+      | .map _ es => showSortedE canon (mapKeys es)
+      | _ => "[]"
+    let model := match Lists.keys id v with
+      | .panic => "panic"
+      | .ok out => showSortedE canon out.elems ++ ";" ++ nilness out
+    pure (ans model spec)
+  | "min", [t, l, d] | "max", [t, l, d] =>
+    let E ← getTy s t
+    let xs ← getList env E l
+    let dv ← getVal env E d
+    let isMin := name == "min"
+    let r := if isMin then minList (minLt env E) xs dv else minList (maxGt env E) xs dv
+    let spec := canonN (specExtreme (if isMin then 1 else -1) xs.elems dv)
+    let model := match r with
+      | .panic => "panic"
+      | .ok m => canonN m ++ ";" ++ canon m
+    pure (ans model spec)
+  | "min2", [t, a, b] | "max2", [t, a, b] =>
+    let E ← getTy s t
+    let av ← getVal env E a
+    let bv ← getVal env E b
+    let isMin := name == "min2"
+    let r := if isMin then min2 (minLt env E) av bv else min2 (maxGt env E) av bv
+    -- the two-value forms return the second argument on a tie
+    let spec := canonN (specExtreme (if isMin then 1 else -1) [bv, av] bv)
+    let model := match r with
+      | .panic => "panic"
+      | .ok m => canonN m ++ ";" ++ canon m
+    pure (ans model spec)
+  | "contains", [t, l, x] =>
+    let E ← getTy s t
+    let xs ← getList env E l
+    let xv ← getVal env E x
+    let spec := toString (Spec.containsBy (Spec.structEq env E) xs.elems xv)
+    let model := match contains (elemEq env E) xv xs.elems with
+      | .panic => "panic"
+      | .ok b => toString b ++ ";"
+    pure (ans model spec)
+  | "unique", [t, l] =>
+    let E ← getTy s t
+    let xs ← getList env E l
+    let useMap := uniqueUsesMap env E
+    let d := Spec.dedupFirst (Spec.structEq env E) xs.elems
+    let spec := if useMap then showSortedE canonN d else showE d
+    let model := match unique useMap id (Hash.top env E) (Equal.top env E) xs with
+      | .panic => "panic"
+      | .ok (out, after) =>
+        if useMap then
+          showSortedE canonN out.elems ++ ";" ++ nilness out ++ "," ++ showSortedE canon out.elems ++ "," ++ showL after
+        else showE out.elems ++ ";" ++ nilness out ++ "," ++ showL after
+    pure (ans model spec)
+  | "set", [t, l] =>
+    let E ← getTy s t
+    let xs ← getList env E l
+    let spec := showSortedE canonN (Spec.dedupFirst (Spec.structEq env E) xs.elems)
+    let out := Lists.set xs
+    pure (ans (showSortedE canonN out ++ ";s," ++ showSortedE canon out) spec)
+  | "unionl", [t, a, b] =>
+    let E ← getTy s t
+    let this ← getList env E a
+    let that ← getList env E b
+    let spec := showE (Spec.unionBy (Spec.structEq env E) this.elems that.elems)
+    let model := match unionList (elemEq env E) this that with
+      | .panic => "panic"
+      | .ok out => showE out.elems ++ ";" ++ nilness out ++ "," ++ showL this ++ "," ++ showL that
+    pure (ans model spec)
+  | "intersectl", [t, a, b] =>
+    let E ← getTy s t
+    let this ← getList env E a
+    let that ← getList env E b
+    let spec := showE (Spec.intersectBy (Spec.structEq env E) this.elems that.elems)
+    let model := match intersectList (elemEq env E) this that with
+      | .panic => "panic"
+      | .ok out => showE out.elems ++ ";" ++ nilness out
+    pure (ans model spec)
+  | "unionm", [t, a, b] =>
+    let K ← getTy s t
+    let this ← getKeySet env K a
+    let that ← getKeySet env K b
+    let e := Spec.structEq env K
+    let spec := showSortedE canonN (Spec.dedupFirst e (this.getD [] ++ that.getD []))
+    let model := match unionMap id this that with
+      | .panic => "panic"
+      | .ok out =>
+        showSortedE canonN (out.getD []) ++ ";" ++ nilness out ++ "," ++ showSortedE canon (out.getD [])
+          ++ "," ++ nilness out ++ "," ++ showSortedE canon (out.getD [])
+    pure (ans model spec)
+  | "intersectm", [t, a, b] =>
+    let K ← getTy s t
+    let this ← getKeySet env K a
+    let that ← getKeySet env K b
+    let e := Spec.structEq env K
+    let spec := showSortedE canonN (Spec.dedupFirst e (Spec.intersectBy e (this.getD []) (that.getD [])))
+    let out := intersectMap id this that
+    pure (ans (showSortedE canonN out ++ ";s," ++ showSortedE canon out) spec)
+  | "filter", [t, l, b] =>
+    let E ← getTy s t
+    let xs ← getList env E l
+    let bits ← getBits b
+    let spec := showE (specFilter bits xs.elems) ++ "|" ++ showE xs.elems
+    let model := match Lists.filter (Script.call false) xs { script := bits } with
+      | .panic => "panic"
+      | .ok ((out, after), st) =>
+        showE out.elems ++ "|" ++ showE st.log ++ ";" ++ nilness out ++ "," ++ showL after
+    pure (ans model spec)
+  | "takewhile", [t, l, b] =>
+    let E ← getTy s t
+    let xs ← getList env E l
+    let bits ← getBits b
+    let spec := showE (specTakeWhile bits xs.elems) ++ "|" ++ showE (specLogUntil false bits xs.elems)
+    let (out, st) := Lists.takeWhile (Script.call false) xs { script := bits }
+    pure (ans (showE out.elems ++ "|" ++ showE st.log ++ ";" ++ nilness out) spec)
+  | "all", [t, l, b] =>
+    let E ← getTy s t
+    let xs ← getList env E l
+    let bits ← getBits b
+    let spec := toString ((padBits bits xs.elems.length).take xs.elems.length |>.all id) ++ "|" ++ showE (specLogUntil false bits xs.elems)
+    let (r, st) := Lists.all (Script.call false) xs.elems { script := bits }
+    pure (ans (toString r ++ "|" ++ showE st.log ++ ";") spec)
+  | "any", [t, l, b] =>
+    let E ← getTy s t
+    let xs ← getList env E l
+    let bits ← getBits b
+    let spec := toString ((padBits bits xs.elems.length).take xs.elems.length |>.any id) ++ "|" ++ showE (specLogUntil true bits xs.elems)
+    let (r, st) := Lists.any (Script.call false) xs.elems { script := bits }
+    pure (ans (toString r ++ "|" ++ showE st.log ++ ";") spec)
+  | "fmap", [.atom f, l, rs] =>
+    let E ← getTyNamed s (f ++ "e")
+    let R ← getTyNamed s (f ++ "r")
+    let xs ← getList env E l
+    let res ← getList env R rs
+    let spec := showE (res.elems.take xs.elems.length) ++ "|" ++ showE xs.elems ++ "|" ++ showL xs
+    let model := match Lists.fmap (Script.call zeroCell) xs { script := res.elems } with
+      | .panic => "panic"
+      | .ok (out, st) => showE out.elems ++ "|" ++ showE st.log ++ "|" ++ showL xs ++ ";" ++ nilness out
+    pure (ans model spec)
+  | "fmaps", [t, sv, rs] =>
+    let R ← getTy s t
+    let str ← getVal env (.basic .string) sv
+    let res ← getList env R rs
+    let runes := Spec.runes (strBytes str)
+    let spec := showE (res.elems.take runes.length) ++ "|" ++ showE runes
+    let model := match Lists.fmapString (Script.call zeroCell) (strBytes str) { script := res.elems } with
+      | .panic => "panic"
+      | .ok (out, st) => showE out.elems ++ "|" ++ showE st.log ++ ";" ++ nilness out
+    pure (ans model spec)
+  | "join", [t, ll] =>
+    let E ← getTy s t
+    let ls ← getListOfLists env E ll
+    let showLL := match ls with
+      | none => "nil"
+      | some xs => bracket (xs.map showL)
+    let spec := (match ls with
+      | none => "n"
+      | some xs => showE (xs.map Sl.elems).flatten) ++ "|" ++ showLL
+    let out := Lists.join ls
+    let a := if ls.isNone then nilness out else showE out.elems
+    pure (ans (a ++ "|" ++ showLL ++ ";" ++ nilness out) spec)
+  | "joins", [_, l] =>
+    let xs ← getList env (.basic .string) l
+    let bss := xs.elems.map strBytes
+    let spec := canon (.str bss.flatten) ++ "|" ++ showL xs
+    pure (ans (canon (.str (joinStrings bss)) ++ "|" ++ showL xs ++ ";") spec)
+  | _, _ => throw "bad-op"
+
+def run (s : DState) (name : String) (args : List SExp) : Option String :=
+  if names.contains name then
+    match runM s name args with
+    | .ok r => some r
+    | .error e => some e
+  else none
 
 end OpsLists
